@@ -402,7 +402,18 @@ func simC14ng(c *sim.Ctx) {
 	}
 	f := disk.NewFile()
 	intfs := []pcapgo.NgInterface{mkIntf(0)}
-	w, err := pcapgo.NewNgWriterInterface(f, intfs[0], opt)
+	var w *pcapgo.NgWriter
+	var err error
+	if c.Chance(150) {
+		// the short constructor: default interface and section information
+		intfs[0] = pcapgo.DefaultNgInterface
+		intfs[0].LinkType = layers.LinkTypeEthernet
+		opt = pcapgo.DefaultNgWriterOptions
+		w, err = pcapgo.NewNgWriter(f, layers.LinkTypeEthernet)
+		c.Probe("short_ng_constructor")
+	} else {
+		w, err = pcapgo.NewNgWriterInterface(f, intfs[0], opt)
+	}
 	if err != nil {
 		c.Fail("roundtrip", "write-error", "NewNgWriterInterface", "%v", err)
 	}
